@@ -35,6 +35,20 @@ def run(prog, tier):
     obs.extend(shared)
     problems = []
 
+    # ---------------------------------------------------------------- error inputs (first: a definite violation here stands even
+    # when the matrix algebra below cannot follow a restructured error model)
+    c, ce = prog.method("GpRegressor", "check_error_data")
+    early = _error_inputs(prog, c, ce)
+    obs.extend(early)
+    try:
+        return _run_rest(prog, tier, obs, info, problems)
+    except AnalysisError:
+        if any(not o.ok for o in early):
+            return obs, {}, {"explanation": "the error model is not the caller's; remaining rules not evaluated"}
+        raise
+
+
+def _run_rest(prog, tier, obs, info, problems):
     # ---------------------------------------------------------------- alpha, L
     ci, ex = gp_expander(prog)
     c, sh = prog.method("GpRegressor", "set_hyperparameters")
@@ -122,9 +136,6 @@ def run(prog, tier):
                                      f"the allocated result has shape {txt} (`.size` of a point set is n*d, a dimension confusion)",
                                      COV, n.lineno, slots={"shape": txt}))
 
-    # ---------------------------------------------------------------- error inputs
-    c, ce = prog.method("GpRegressor", "check_error_data")
-    obs.extend(_error_inputs(prog, c, ce))
 
     # ---------------------------------------------------------------- query normalisation
     for mname in ("__call__", "gradient", "spatial_derivatives", "build_posterior"):
@@ -146,6 +157,8 @@ def run(prog, tier):
     obs.extend(dtype_hazard_obligations(prog, "float-arithmetic", ['inference/gp/regression.py']))
     from .common import call_order_obligations
     obs.extend(call_order_obligations(prog, "arguments-in-order", ['inference/gp/regression.py']))
+    from .common import identity_memo_obligations
+    obs.extend(identity_memo_obligations(prog, "result-keyed-on-values", ['inference/gp/regression.py']))
 
     obs.extend(memo_obligations(prog, "cache-key", [prog.cls("GpRegressor")]))
 
@@ -190,19 +203,37 @@ def _error_inputs(prog, c, fn):
         out.append(struct_ob("error-input-typestate", qual(c, fn) + f"[{var}]", ok,
                              f"a list/tuple `{var}` must be converted into `{var}` itself, the name whose .shape/.T are read and "
                              f"which is returned: {why}", REL, conv.lineno if conv is not None else fn.lineno, detail=var))
-    # the standard-deviation arm returns diag(y_err**2)
-    rets = [s for s in arms["y_err"] if isinstance(s, ast.Return)]
-    ok = False
+    # a covariance that is given is used as given: every return of that arm hands back y_cov itself
+    rets_cov = [n for st in arms["y_cov"] for n in ast.walk(st) if isinstance(n, ast.Return)]
+    other = [r for r in rets_cov if r.value is None or U(r.value) != "y_cov"]
     why = ""
-    if len(rets) == 1 and isinstance(rets[0].value, ast.Call) and U(rets[0].value.func) == "diag":
+    if other:
+        cond = None
+        for st in arms["y_cov"]:
+            for n in ast.walk(st):
+                if isinstance(n, ast.If) and any(x is other[0] for b in n.body + n.orelse for x in ast.walk(b)):
+                    cond = n.test
+        why = (f"line {other[0].lineno} returns `{U(other[0].value) if other[0].value is not None else None}`"
+               + (f" when `{U(cond)[:100]}`" if cond is not None else "") + " instead of the covariance that was given: the posterior is "
+               "then conditioned on another error model than the caller's")
+    out.append(struct_ob("error-input-typestate", qual(c, fn) + "[covariance-as-given]", bool(rets_cov) and not other,
+                         "a data covariance passed as y_cov must be used unchanged: " + (why or "no return on the y_cov arm"), REL,
+                         other[0].lineno if other else fn.lineno, tier="F"))
+    # the standard-deviation arm returns diag(y_err**2)
+    rets = [n for st in arms["y_err"] for n in ast.walk(st) if isinstance(n, ast.Return)]
+    deferred = None
+    if len(rets) == 1 and isinstance(rets[0].value, ast.Call) and U(rets[0].value.func) == "diag" and rets[0].value.args:
         anf.reset()
         ex = Expander(prog, c.module, None)
         v = ex.eval(rets[0].value.args[0], {"y_err": R.sym("y_err")})
         ok = v.eq(R.sym("y_err") ** 2)
-        why = f"returns diag({v})"
-    rets_cov = [s for s in arms["y_cov"] if isinstance(s, ast.Return)]
-    ok = ok and len(rets_cov) == 1 and U(rets_cov[0].value) == "y_cov"
-    out.append(struct_ob("error-input-typestate", qual(c, fn) + "[equivalence]", ok,
-                         "standard deviations must become diag(y_err^2), the covariance the equivalent y_cov would give: " + why,
-                         REL, fn.lineno, tier="F"))
+        out.append(struct_ob("error-input-typestate", qual(c, fn) + "[equivalence]", ok,
+                             f"standard deviations must become diag(y_err^2), the covariance the equivalent y_cov would give: returns diag({v})",
+                             REL, fn.lineno, tier="F"))
+    else:
+        deferred = AnalysisError("error-input-typestate: the y_err arm of check_error_data does not return diag(<expression>) - whether "
+                                 f"`{U(rets[0].value)[:80] if rets and rets[0].value is not None else None}` stands for the same covariance "
+                                 "is not decided")
+    if deferred is not None and all(o.ok for o in out):
+        raise deferred
     return out
